@@ -1679,10 +1679,18 @@ class SoftAbsRegularizedPositiveDefiniteMatrix(
 
     def grad_quadratic_form_inv(self, vector: NDArray) -> NDArray:
         num_j_mtx = self.eigval[:, None] - self.eigval[None, :]
-        num_j_mtx += np.diag(self.grad_softabs(self.unreg_eigval))
         den_j_mtx = self.unreg_eigval[:, None] - self.unreg_eigval[None, :]
-        np.fill_diagonal(den_j_mtx, 1)
-        j_mtx = num_j_mtx / den_j_mtx
+        mean_unreg_eigval = (self.unreg_eigval[:, None] + self.unreg_eigval[None, :]) / 2
+        # For (nearly) repeated eigenvalues the divided difference is undefined or
+        # dominated by cancellation error, so use its limit, the softabs derivative
+        is_repeated = self._softabs_coeff * abs(den_j_mtx) <= 1e-5 * (
+            1 + self._softabs_coeff * abs(mean_unreg_eigval)
+        )
+        j_mtx = np.where(
+            is_repeated,
+            self.grad_softabs(mean_unreg_eigval),
+            num_j_mtx / np.where(is_repeated, 1, den_j_mtx),
+        )
         e_vct = (self.eigvec.T @ vector) / self.eigval
         return -((self.eigvec @ (np.outer(e_vct, e_vct) * j_mtx)) @ self.eigvec.T)
 
